@@ -43,6 +43,30 @@ func getEnumType(t string) (ast.Type, error) {
 	}
 }
 
+// inferEnumType returns the OpenAPI type shared by every value of an enum:
+// string or integer. It returns an empty string for anything else.
+func inferEnumType(values []any) string {
+	inferred := ""
+	for _, value := range values {
+		valueType := ""
+		switch v := value.(type) {
+		case string:
+			valueType = openapi3.TypeString
+		case float64:
+			if v == math.Trunc(v) {
+				valueType = openapi3.TypeInteger
+			}
+		}
+
+		if valueType == "" || (inferred != "" && inferred != valueType) {
+			return ""
+		}
+		inferred = valueType
+	}
+
+	return inferred
+}
+
 func getConstraints(schema *openapi3.Schema) []ast.TypeConstraint {
 	constraints := make([]ast.TypeConstraint, 0)
 
